@@ -1,30 +1,42 @@
 #!/usr/bin/env python3
-"""false-alarm test: apply behaviour-preserving refactoring diffs to /repo one at a time, run every quick check, restore.
-   tools/refcheck.py /tmp/wt/RA-out/r1.diff ...     prints exit codes != 0"""
+"""false-alarm / detection test on scratch copies of the current sources (never touches /repo):
+   tools/refcheck.py [--only Cnn[,Cmm]] diff...    applies each diff to a private copy (patch -p1), runs the quick checks
+   against it (VERIF_REPO), prints the checks that do not exit 0."""
 import sys, os, subprocess, tempfile, shutil, json
 from concurrent.futures import ThreadPoolExecutor
 HERE = os.path.dirname(os.path.dirname(os.path.abspath(__file__)))
 ids = [c['property_id'] for c in json.load(open(os.path.join(HERE, 'MANIFEST.json')))['checks']]
-dirty = subprocess.run(['git', '-C', '/repo', 'status', '--porcelain', '--untracked-files=no'], stdout=subprocess.PIPE).stdout.decode().strip()
-if dirty:
-    print('refusing: /repo has uncommitted changes'); sys.exit(2)
-for diff in [os.path.abspath(x) for x in sys.argv[1:]]:
-    ev = tempfile.mkdtemp(prefix='refcheck-')
+args = sys.argv[1:]
+if args and args[0] == '--only':
+    ids = args[1].split(',')
+    args = args[2:]
+
+
+def one_diff(diff):
+    tmp = tempfile.mkdtemp(prefix='cppcms-refcheck-')
     try:
-        r = subprocess.run(['git', '-C', '/repo', 'apply', diff])
+        for d in ('src', 'private', 'cppcms', 'booster'):
+            shutil.copytree(os.path.join('/repo', d), os.path.join(tmp, d), symlinks=True)
+        r = subprocess.run(['patch', '-p1', '-s', '-d', tmp, '-i', diff], stdout=subprocess.PIPE, stderr=subprocess.STDOUT)
         if r.returncode != 0:
-            print(diff, 'DOES NOT APPLY'); continue
-        env = dict(os.environ, VERIF_EVIDENCE_DIR=ev)
+            return '%s DOES NOT APPLY: %s' % (diff, r.stdout.decode()[:200])
+        env = dict(os.environ, VERIF_REPO=tmp, VERIF_EVIDENCE_DIR=os.path.join(tmp, 'ev'))
+
         def one(p):
             o = subprocess.run([os.path.join(HERE, 'check'), p], env=env, stdout=subprocess.PIPE, stderr=subprocess.STDOUT)
-            return p, o.returncode, o.stdout.decode(errors='replace')
-        with ThreadPoolExecutor(max_workers=8) as ex:
+            return p, o.returncode, o.stdout.decode(errors='replace').replace(tmp, '/repo')
+        with ThreadPoolExecutor(max_workers=6) as ex:
             res = list(ex.map(one, ids))
         bad = [(p, rc, out) for p, rc, out in res if rc != 0]
-        print('%s: %s' % (diff, 'all 20 checks silent' if not bad else ''))
+        txt = '%s: %s' % (diff, ('all %d checks silent' % len(ids)) if not bad else '')
         for p, rc, out in bad:
             lines = [l for l in out.splitlines() if ('[' in l and ': C' in l) or 'BROKEN' in l][:3]
-            print('   %s exit=%d %s' % (p, rc, ' | '.join(l[:230] for l in lines)))
+            txt += '\n   %s exit=%d %s' % (p, rc, ' | '.join(l[:230] for l in lines))
+        return txt
     finally:
-        subprocess.run(['git', '-C', '/repo', 'checkout', '--', '.'])
-        shutil.rmtree(ev, ignore_errors=True)
+        shutil.rmtree(tmp, ignore_errors=True)
+
+
+with ThreadPoolExecutor(max_workers=3) as ex:
+    for t in ex.map(one_diff, [os.path.abspath(x) for x in args]):
+        print(t, flush=True)
